@@ -192,3 +192,59 @@ example : let g1 : GRec ℚ := ⟨"ASP   1 A", 38/10, 0, 0, [⟨"GLU   2 A", "GL
   refine ⟨by decide +kernel, by decide +kernel, by decide +kernel, by decide +kernel⟩
 
 end Propka.Dets
+
+/-! ## the whole search (`identify`: the probes of all visited pairs in turn) -/
+namespace Propka.Dets
+
+theorem sameResults_trans (a b c : GRec ℚ) (h1 : SameResults a b) (h2 : SameResults b c) : SameResults a c := by
+  obtain ⟨a1, a2, a3, a4, a5, a6, a7, a8, a9⟩ := h1
+  obtain ⟨b1, b2, b3, b4, b5, b6, b7, b8, b9⟩ := h2
+  exact ⟨a1.trans b1, a2.trans b2, a3.trans b3, a4.trans b4, a5.trans b5, a6.trans b6, a7.trans b7, a8.trans b8, a9.trans b9⟩
+
+theorem getD_set2 (gs : Array (GRec ℚ)) (g : Nat) (x d : GRec ℚ) (i : Nat) (hg : g < gs.size) :
+    (gs.setIfInBounds g x).getD i d = if i = g then x else gs.getD i d := by
+  simp only [Array.getD_eq_getD_getElem?, Array.getElem?_setIfInBounds]
+  by_cases h : g = i
+  · subst h; simp [hg]
+  · simp [h, Ne.symm h]
+
+/-- **The whole coupling search observes without disturbing**: after the probes of all visited pairs (any list of pairs of two
+    different groups of the table, any thresholds, any energy function, any intrinsic pKa values) every group has the results
+    it had before the search - pKa, both desolvation terms, every determinant with its original partner label - and is up to
+    date.  (Induction over the pairs: `probe_restores` and `probe_keeps_uptodate` for the two groups of the pair, nothing
+    touched for the others.) -/
+theorem identify_preserves (fixed : ℚ) (p : ProbeP ℚ) (energy : Array (GRec ℚ) → ℚ → GRec ℚ → GRec ℚ → ℚ) (intr : GRec ℚ → ℚ) (dflt : GRec ℚ)
+    (pairs : List (Nat × Nat)) (gs : Array (GRec ℚ))
+    (hp : ∀ ab ∈ pairs, ab.1 ≠ ab.2 ∧ ab.1 < gs.size ∧ ab.2 < gs.size)
+    (hu : ∀ i, i < gs.size → UpToDate fixed (gs.getD i dflt)) :
+    (identify fixed p energy intr dflt pairs gs).size = gs.size ∧
+    ∀ i, i < gs.size → SameResults ((identify fixed p energy intr dflt pairs gs).getD i dflt) (gs.getD i dflt) ∧
+      UpToDate fixed ((identify fixed p energy intr dflt pairs gs).getD i dflt) := by
+  unfold identify
+  induction pairs generalizing gs with
+  | nil => exact ⟨rfl, fun i hi => ⟨sameResults_refl _, hu i hi⟩⟩
+  | cons ab rest ih =>
+    simp only [List.foldl_cons]
+    obtain ⟨hne, h1, h2⟩ := hp ab (by simp)
+    -- the state after the first probe
+    obtain ⟨gs1, hgs1⟩ : ∃ gs1, gs1 = (gs.setIfInBounds ab.1 (probe fixed p (energy gs) (intr (gs.getD ab.1 dflt)) (intr (gs.getD ab.2 dflt)) (gs.getD ab.1 dflt) (gs.getD ab.2 dflt)).1.1).setIfInBounds ab.2
+        (probe fixed p (energy gs) (intr (gs.getD ab.1 dflt)) (intr (gs.getD ab.2 dflt)) (gs.getD ab.1 dflt) (gs.getD ab.2 dflt)).1.2 := ⟨_, rfl⟩
+    rw [← hgs1]
+    have hsz : gs1.size = gs.size := by rw [hgs1]; simp
+    have hr := probe_restores fixed p (energy gs) (intr (gs.getD ab.1 dflt)) (intr (gs.getD ab.2 dflt)) _ _ (hu ab.1 h1) (hu ab.2 h2)
+    have hk := probe_keeps_uptodate fixed p (energy gs) (intr (gs.getD ab.1 dflt)) (intr (gs.getD ab.2 dflt)) _ _ (hu ab.1 h1) (hu ab.2 h2)
+    have hstep : ∀ i, i < gs.size → SameResults (gs1.getD i dflt) (gs.getD i dflt) ∧ UpToDate fixed (gs1.getD i dflt) := by
+      intro i hi
+      rw [hgs1, getD_set2 _ _ _ _ _ (by simp; exact h2), getD_set2 _ _ _ _ _ h1]
+      by_cases e2 : i = ab.2
+      · rw [if_pos e2, e2]; exact ⟨hr.2, hk.2⟩
+      · rw [if_neg e2]
+        by_cases e1 : i = ab.1
+        · rw [if_pos e1, e1]; exact ⟨hr.1, hk.1⟩
+        · rw [if_neg e1]; exact ⟨sameResults_refl _, hu i hi⟩
+    obtain ⟨s2, r2⟩ := ih gs1 (fun x hx => by rw [hsz]; exact hp x (List.mem_cons_of_mem _ hx)) (fun i hi => (hstep i (by rw [← hsz]; exact hi)).2)
+    refine ⟨by rw [s2, hsz], fun i hi => ?_⟩
+    obtain ⟨a, b⟩ := r2 i (by rw [hsz]; exact hi)
+    exact ⟨sameResults_trans _ _ _ a (hstep i hi).1, b⟩
+
+end Propka.Dets
